@@ -98,6 +98,13 @@ class Report:
             self.floor_failures.append('count-below-floor anchor=%s found=%d floor=%d' % (what, n, floor))
         self.extra.setdefault('instance_counts', {})[what] = {'found': n, 'floor': floor}
 
+    def cannot_judge(self, msg):
+        """a part of the tree the rules cannot judge: deferred like a floor failure - a located violation of the same
+        run takes precedence, otherwise the check exits 2"""
+        m = 'cannot judge: ' + msg
+        if m not in self.floor_failures:
+            self.floor_failures.append(m)
+
     def add_paths(self, fn_path, n):
         self.analysed_fns.add(fn_path)
         self.paths += n
